@@ -392,6 +392,23 @@ func (c *FCtx) protoSpecCall(se *SpecEnv, name string, args []*SExpr) (TV, bool)
 		key := "G$calls." + args[0].Lit
 		arr := c.heapGet(se.Cur, key, SArr(SInt, SInt))
 		return TV{Select(arr, IntC(0)), nil}, true
+	case "last", "lastok":
+		// logical time of the last (successful) call of a counted function; 0 if there was none
+		if len(args) != 1 || args[0].Kind != "str" {
+			se.fail("%s expects a string", name)
+		}
+		if !c.W.countedName(args[0].Lit) {
+			se.fail("%s: %q is not a counted function (add a count directive)", name, args[0].Lit)
+		}
+		key := "G$calls." + args[0].Lit
+		arr := c.heapGet(se.Cur, key, SArr(SInt, SInt))
+		clk := Select(c.heapGet(se.Cur, clockKey, SArr(SInt, SInt)), IntC(0))
+		l, lo := Select(arr, IntC(1)), Select(arr, IntC(2))
+		se.assumeFact(And(IGe(lo, IntC(0)), ILe(lo, l), ILe(l, clk)))
+		if name == "last" {
+			return TV{l, nil}, true
+		}
+		return TV{lo, nil}, true
 	case "sentv", "recvdv":
 		arg := args[0]
 		if arg.Kind != "sel" || len(args) != 2 || args[1].Kind != "bool" {
@@ -548,6 +565,8 @@ func (c *FCtx) havocLoopHeap(e *Env, st *State, body *ast.BlockStmt, extra []ast
 		for _, m := range spec.Modifies {
 			se.havocModifies(m.Text, st)
 		}
+		// ghost protocol state (locks, events, call counters) is never covered by a modifies clause
+		c.havocLocks(st, c.W.bodyWrites(e, body))
 		return
 	}
 	ws := c.W.bodyWrites(e, body)
@@ -573,6 +592,13 @@ func (c *FCtx) havocLoopHeap(e *Env, st *State, body *ast.BlockStmt, extra []ast
 }
 
 func (c *FCtx) havocLocks(st *State, ws *Effects) {
+	var calls []string
+	for k := range ws.Locks {
+		if strings.HasPrefix(k, "G$calls.") {
+			calls = append(calls, k)
+		}
+	}
+	defer func() { c.clockAfterHavoc(st, calls) }()
 	for k := range ws.Locks {
 		st.heap[k] = c.freshVar(k, SArr(SInt, SInt))
 		if !strings.HasPrefix(k, "L$") {
